@@ -113,37 +113,59 @@ def Prng.initUser (cb : CbKind) (ud : Bool) (custom : Bytes) (e : Ent) : Option 
 def Prng.init (custom : Bytes) (e : Ent) : Option (Int × Prng × Ent) :=
   Prng.initUser .system false custom e
 
-/-- result of `tinyjambu_prng_generate`: bytes, state, environment, and for each
-    entropy request made during the call the number of bytes already emitted -/
+/-- observable events of the generator, in order: an entropy request, the emission of `k` output bytes,
+    a change of the reseed limit (in blocks) -/
+inductive Ev
+  | request
+  | emit (k : Nat)
+  | limit (blocks : Nat)
+  deriving DecidableEq, Repr, Inhabited
+
+/-- result of `tinyjambu_prng_generate`: bytes, state, environment, and the event trace of the call -/
 structure GenResult where
   out : Bytes
   p : Prng
   e : Ent
-  reqs : List Nat
+  trace : List Ev
   deriving Repr
 
-/-- block loop of `tinyjambu_prng_generate` (`size` bytes still to produce, `done`
-    bytes produced so far in this call); `none` = call through a NULL callback -/
-def Prng.genLoop (p : Prng) (e : Ent) (size done : Nat) : Option GenResult :=
-  if size = 0 then some ⟨[], p, e, []⟩ else
-  let step (p : Prng) (e : Ent) (rq : List Nat) : Option GenResult :=
-    let len := min 32 size
-    let H := hash p.V
-    let H3 := hashPrefixed 0x03 p.V
-    let p' := { p with V := vAdvance p.V H3 p.C p.rc, rc := p.rc + 1 }
-    match Prng.genLoop p' e (size - len) (done + len) with
-    | none => none
-    | some r => some { r with out := H.take len ++ r.out, reqs := rq ++ r.reqs }
+/-- for each entropy request in a trace, the number of bytes emitted before it -/
+def reqPositions : List Ev → Nat → List Nat
+  | [], _ => []
+  | .request :: t, done => done :: reqPositions t done
+  | .emit k :: t, done => reqPositions t (done + k)
+  | .limit _ :: t, done => reqPositions t done
+
+/-- the "reseed automatically if too much data has been generated already" check at the top of the
+    block loop: state, environment and the event it caused; `none` = call through a NULL callback -/
+def Prng.autoReseed (p : Prng) (e : Ent) : Option (Prng × Ent × List Ev) :=
   if p.rc > p.rl then
     match p.reseed e with
     | none => none
-    | some (_, p1, e1) => step p1 e1 [done]
-  else step p e []
+    | some (_, p1, e1) => some (p1, e1, [.request])
+  else some (p, e, [])
+
+/-- one output block: `output = Hash(V)`, then `V = V + Hash(0x03 ‖ V) + C + reseed_counter`,
+    `reseed_counter + 1` -/
+def Prng.block (p : Prng) : Bytes × Prng :=
+  (hash p.V, { p with V := vAdvance p.V (hashPrefixed 0x03 p.V) p.C p.rc, rc := p.rc + 1 })
+
+/-- block loop of `tinyjambu_prng_generate` (`size` bytes still to produce) -/
+def Prng.genLoop (p : Prng) (e : Ent) (size : Nat) : Option GenResult :=
+  if size = 0 then some ⟨[], p, e, []⟩ else
+  match p.autoReseed e with
+  | none => none
+  | some (p1, e1, rq) =>
+    let len := min 32 size
+    let b := p1.block
+    match Prng.genLoop b.2 e1 (size - len) with
+    | none => none
+    | some r => some { r with out := b.1.take len ++ r.out, trace := rq ++ (.emit len :: r.trace) }
 termination_by size
-decreasing_by all_goals omega
+decreasing_by omega
 
 def Prng.generate (p : Prng) (e : Ent) (size : Nat) : Option GenResult :=
-  Prng.genLoop p e size 0
+  Prng.genLoop p e size
 
 /-- `tinyjambu_prng_feed` (with the saturating counter of the repaired code) -/
 def Prng.feed (p : Prng) (data : Bytes) : Prng :=
